@@ -26,7 +26,7 @@ PLAN = {
     "thorough": {"shards": 16, "shard_timeout": 3600, "case_timeout": 240, "configs": 1200, "envs": 6, "max_case_timeouts": 20},
 }
 THRESHOLDS = {
-    "quick": {"configurations_compared": 35, "child_runs": 140, "set:environments": 6, "repr:tree": 4, "repr:ge": 4, "repr:sge": 4, "repr:dsge": 4, "repr:stack": 4, "alg:gp": 5, "alg:rs": 3, "alg:hc": 3, "alg:opo": 3, "gp_crossover_heavy:dsge": 5, "tracker:bare": 5, "tracker:with-recorder": 5, "focus:tree": 3, "focus:ge": 3, "focus:sge": 3, "focus:dsge": 3, "focus:stack": 3, "ring_recursion_configurations": 5, "evaluations_traced": 2000, "distinct_programs_traced": 300},
+    "quick": {"configurations_compared": 35, "child_runs": 140, "set:environments": 6, "repr:tree": 4, "repr:ge": 4, "repr:sge": 4, "repr:dsge": 4, "repr:stack": 4, "alg:gp": 5, "alg:rs": 3, "alg:hc": 3, "alg:opo": 3, "gp_crossover_heavy:dsge": 5, "tracker:bare": 5, "tracker:with-recorder": 5, "focus:tree": 3, "focus:ge": 3, "focus:sge": 3, "focus:dsge": 3, "focus:stack": 3, "ring_recursion_configurations": 5, "same_named_classes_configurations": 3, "evaluations_traced": 2000, "distinct_programs_traced": 300},
     "thorough": {"configurations_compared": 380, "child_runs": 2200, "set:environments": 30},
 }
 REPRS = ["tree", "ge", "sge", "dsge", "stack"]
@@ -65,6 +65,9 @@ def focus_cases(rng, descs, per_repr):
             yield {"desc": desc, "repr": r, "decider": rng.choice(["maxdepth", "pigrow"]), "alg": "gp", "seed": rng.randrange(10**6), "budget": rng.choice([50, 70]), "pop": rng.choice([6, 8]), "extra_depth": rng.choice([3, 4]), "step": "cx", "tracker": "default", "envs": _envs(rng, 6), "focus": True}
     # deciders that consult the grammar ANALYSIS (recursive set, distances), on recursion that runs through several
     # categories: an analysis that depends on the visiting order of a set of classes shows here
+    twins = next(d for d in grammars.FIXED if d["name"] == "fx_twins")
+    for r in ("stack", "stack", "stack", "tree"):  # classes that tie on every NAME-based order
+        yield {"desc": twins, "repr": r, "decider": "maxdepth", "alg": rng.choice(["gp", "rs"]), "seed": rng.randrange(10**6), "budget": 40, "pop": 6, "extra_depth": 3, "step": "default", "tracker": "default", "envs": _envs(rng, 6), "focus": True, "twins": True}
     ring = next(d for d in grammars.FIXED if d["name"] == "fx_ring")
     for r, dec in (("tree", "full"), ("tree", "pigrow"), ("ge", "progressive"), ("sge", "full"), ("tree", "progressive"), ("ge", "pigrow")):
         yield {"desc": ring, "repr": r, "decider": dec, "alg": rng.choice(["gp", "rs"]), "seed": rng.randrange(10**6), "budget": 40, "pop": 6, "extra_depth": rng.choice([3, 5]), "step": "default", "tracker": "default", "envs": _envs(rng, 6), "focus": True, "ring": True}
@@ -118,6 +121,8 @@ def run_case(case, rec):
         rec.count(f"focus:{case['repr']}")
     if case.get("ring"):
         rec.count("ring_recursion_configurations")
+    if case.get("twins"):
+        rec.count("same_named_classes_configurations")
     strs = "with-str-fields" if has_kind(case["desc"], "str") else "no-str-fields"
     for env, r in results:
         if not r["second_run_equal"]:
